@@ -103,7 +103,7 @@ def file_cmd(rng, names):
     if r < 37: return ["@@touch " + f]
     if r < 38: return ["@@writefile " + f + " " + hx(rng.choice(WORDS) + "\n")]
     if r < 39: return ["se " + rng.choice(["wa", "nowa", "aw", "noaw"])] if rng.below(3) == 0 else [rng.choice(["1d|e! " + f, "e! " + f + "|1d", "$d|b #", "e #|$d", "1d|e " + f])]
-    if r < 40: return ["b!"]
+    if r < 40: return [rng.choice(["b!", "b !", "b !", "b ~"])]
     # edits and whole / partial writes chained on one command line (one undo step, one sequence number)
     e = lambda: rng.choice(["1d", "$d", "s/o/0/", "1,2d", "%s/a/b/g", "1pu", "u", "redo", "1co$", "$m0"])
     w = lambda: rng.choice(["w", "w", "w", "1w", "%w", "w " + f, "w! " + f])
@@ -114,8 +114,27 @@ def file_cmd(rng, names):
     if k == 3: return [e() + "|" + w() + "|" + e() + "|" + w() + "|" + e()]
     return [e() + "|" + e() + "|" + w() + "|u"]
 
-def buf_cases(rng, count, nfiles=3, maxcmds=14):
+def full_table_cases(rng, count):
+    """the buffer list at and beyond its capacity (16): a modified buffer ages to the last slot, then quit / another open /
+    switch by number; also with buffers deleted and re-opened in between (numbers of later buffers)"""
     out = []
+    for _ in range(count):
+        n = rng.choice([14, 15, 16, 16, 16, 17, 17, 18])
+        names = ["f%d" % i for i in range(n)]
+        files = [(nm, "text %s\nmore\n" % nm) for nm in names]
+        dirty = rng.below(min(n, 4))                  # which of the first buffers gets modified
+        lines = []
+        for i, nm in enumerate(names):
+            if i > 0: lines.append(("e! " if rng.below(3) == 0 or i == dirty + 1 else "e ") + nm)
+            if i == dirty: lines.append(rng.choice(["1s/text/CHANGED/", "1d", "a\nnew\n."]).replace("\n", "\n"))
+            if rng.below(12) == 0: lines.append(rng.choice(["b !", "b ~", "b 2", "b -", "se aw", "se wa"]))
+        lines = [x for l in lines for x in l.split("\n")]
+        lines += [rng.choice(["q", "q", "x", "wq", "e fresh", "b 1", "b"]), "b", rng.choice(["q", "b %d" % (1 + rng.below(n)), "e f0"]), "b", "q!"]
+        out.append(case(files + [("fresh", "fresh\n")], [names[0]], lines))
+    return out
+
+def buf_cases(rng, count, nfiles=3, maxcmds=14):
+    out = full_table_cases(rng, max(3, count // 150))
     for _ in range(count):
         k = 2 + rng.below(nfiles - 1) if nfiles > 2 else 2
         names = ["f%d" % i for i in range(k)]
